@@ -257,7 +257,7 @@ def classify_dilute(c, solute, conc, solvent):
     if bottom <= 0:
         return 'unjudged', 'zero_denominator', 0.0, (value, num, den)
     c0 = top / bottom
-    cq = cf.q  # concentration quantum (absolute, in base-unit ratio)
+    cq = R.conc_quantum(value)  # concentration quantum (absolute, in base-unit ratio)
     t = R.per(solvent, num) if solvent == solute else 0.0
     b = R.per(solvent, den)
     rel = (value - c0) / c0
@@ -335,7 +335,7 @@ def check_dilute(c, solute, conc, solvent, name, result, exc):
     # tolerance: concentration quantum q/c, storage quanta on solute and on the added solvent
     amt_solute = max(abs(c.contents[solute]), cf.q)
     amt_solv = max(abs(result.contents.get(solvent, 0.0)), cf.q)
-    rel_tol = K * (cf.q / value + cf.q / amt_solute + cf.q / amt_solv) + 1e-7
+    rel_tol = K * (R.conc_quantum(value) / value + cf.q / amt_solute + cf.q / amt_solv) + 1e-7
     if not M.ratio('DILUTE', got, value, rel_tol * value):
         M.violate(['C11'], 'DILUTE', f'C11:dilute_misses_target:{comp}:{num}/{den}',
                   {'target': value, 'unit': f'{num}/{den}', 'result_concentration': got, 'rel_tol': rel_tol,
@@ -490,17 +490,12 @@ def check_get_concentration(c, solute, units, result, exc):
         return
     if den == 'U':
         return
-    if den == 'L' and 0 < R.measure(c.contents, 'L') < 1e4 * cf.q:
-        # the denominator is read through get_volume('L'), which rounds to q litres: a container whose
-        # volume is within 1e4 quanta of zero is below the observer's documented resolution
-        M.count('OBS.below_resolution')
-        return
     M.count('OBS.get_concentration')
     exp = R.concentration(c.contents, solute, num, den)
     if exc is not None:
         if math.isfinite(exp) and mult < 0.5 * cf.q and isinstance(exc, ZeroDivisionError):
-            # recorded finding KF32: the unit itself is parsed as the concentration '1 <unit>' and rounded to the
-            # concentration quantum; below 1e-10 in base units (ng/kg, nmol/kL) the multiplier becomes 0
+            # (KF32, repaired: the unit itself is parsed as the concentration '1 <unit>'; when that was rounded to ten decimals
+            # in base units the multiplier of ng/kg, nmol/kL became 0)
             M.violate(['C10'], 'OBS', 'C10:get_concentration_unit_multiplier_rounds_to_zero:ZeroDivisionError',
                       {'units': units, 'multiplier_to_base_units': mult, 'exc': repr(exc)[:200]})
         elif math.isfinite(exp):
@@ -518,8 +513,9 @@ def check_get_concentration(c, solute, units, result, exc):
         return
     rel = K * cf.q * (1.0 / max(amt, cf.q))
     if den == 'L':
-        rel += K * cf.q * 1.0 / max(bottom, 1e-300)   # get_volume('L') rounds to q L
-        rel += K * cf.q * (len(c.contents) + 2) * cf.vol_prefix / bottom
+        # the stored volume is kept by the operations' own bookkeeping: it follows the contents to one storage quantum of
+        # each substance (for a macromolecule 1e-10 umol is 1e-8 uL) and of the volume per operation
+        rel += K * (cf.q * (len(c.contents) + 2) * cf.vol_prefix + 3 * H1.storage_noise_in(c.contents, 'L')) / bottom
     tol = abs(exp_u) * (rel + 1e-9) + K * cf.q
     if not M.ratio('OBS.get_concentration', result, exp_u, tol):
         M.violate(['C10'], 'OBS', f'C10:get_concentration_ne_definition:{num}/{den}',
